@@ -192,10 +192,10 @@ def tensor_method(it, tv, name, args, kwargs, node):
             it.effect("meta", tv.obj, node, name)
             if tv.view:
                 raise Unsupported("in-place unsqueeze on a view", node, it.site(node))
-            tv.obj.term = T.app("unsq", t, ax) if t is not None else None
+            tv.obj.term = T.app("unsq", t, ax, None if rank is None else rank + 1) if t is not None else None
             tv.obj.shape = new_shape
             return tv
-        return VTens(tv.obj, tv.view + (("op", "unsq", ax),), new_shape)
+        return VTens(tv.obj, tv.view + (("op", "unsq", ax, None if rank is None else rank + 1),), new_shape)
     if base == "squeeze":
         a0 = args[0] if args else kwargs.get("dim")
         if a0 is None:
